@@ -86,7 +86,9 @@ Context::~Context()
     delete _returned;
   _returned = nullptr;
 
-  if (_fctm->getRoot() == this)
+  /* only the root context own the manager: a child must not even look at
+   * it, because the root it was made from could be gone already */
+  if (_root == this)
     delete _fctm;
   _fctm = nullptr;
 
@@ -549,7 +551,10 @@ Context * Context::createChildShell(Context& root) const
 Context * Context::createChildRuntime(Context& root, uint8_t recursion) const
 {
   assert(recursion > 0);
-  Context * runtime = new Context(*this);
+  /* the runtime belongs to the calling root (its streams, its stop condition
+   * and its flags), not to the root this was parsed in: a clone must keep
+   * working when the original is gone */
+  Context * runtime = new Context(root);
   runtime->_fctm = root._fctm;
   runtime->_recursion = recursion;
   /* copy table of symbols with new empty values */
